@@ -36,6 +36,58 @@ REGEX_LEMMAS = ("regex lemmas 4.2 (pin_cite group at the head of POST_{FULL,SHOR
                 "group order before the parenthetical, POST_SHORT/LAW/JOURNAL patterns match the empty string, antecedent group always participates) "
                 "are assumed as named axioms keyed by the regex constant")
 
+def _c16_extra(e, run, tier):
+    from pyvc import hashmodel
+    return hashmodel.obligations(e, run, tier)
+
+
+def _c20_extra(e, run, tier):
+    """Cleaner laws: (1) the real source of each text cleaner is classified into the family collapse(p, n, r) that
+    lean/Collapse.lean proves idempotent / run-free / content-preserving (AST + CPython's own regex parser);
+    (2) the Lean file is re-checked (no sorry/axiom, statements pinned, leanchecker);
+    (3) bounded cross-check of the assumed link re.sub == collapse (E-RE-SUB) -- never counted as proved."""
+    import json, os, subprocess, sys
+    from pyvc import report, solve
+    sys.path.insert(0, os.path.join(report.VERIF, "pyvc"))
+    from pyvc.cleaner_family import classify_cleaners
+    obls = []
+    res = classify_cleaners(repo=report.REPO) if "repo" in classify_cleaners.__code__.co_varnames else classify_cleaners()
+    for name, r in res.items():
+        ok = bool(r.get("ok"))
+        o = solve.Obligation(f"clean.{name}/family:is_collapse_instance", [], None, {}, "C20", "post")
+        o.status = "discharged" if ok else "refuted"
+        o.solver = "ast+cpython-sre"
+        o.smt2 = json.dumps({k: r.get(k) for k in ("pattern", "replacement", "in_family", "instance", "n", "class_description",
+                                                      "class_matches_property", "instance_matches_property", "reason_if_not", "source_sha256")})
+        o.raw = o.smt2
+        o.values = {"pattern": r.get("pattern"), "replacement": r.get("replacement")}
+        obls.append(o)
+        run.functions[f"clean.{name}"] = {"source_sha256": r.get("source_sha256", ""), "paths": 1}
+    # Lean lemmas
+    p = subprocess.run(["bash", os.path.join(report.VERIF, "lean", "check.sh")], capture_output=True, text=True)
+    o = solve.Obligation("lean/Collapse.lean/kernel_check", [], None, {}, "C20", "lemma")
+    o.status = "discharged" if p.returncode == 0 else "undecided"
+    o.solver = "lean-4.33+leanchecker"
+    o.smt2 = (p.stdout + p.stderr)[-1500:]
+    obls.append(o)
+    run.trust("E-RE-SUB: CPython's re.sub on a pattern C{n,} with a backslash-free replacement rewrites exactly the maximal C-runs of length >= n "
+              "(leftmost, greedy, non-overlapping) -- i.e. is the function `collapse` of lean/Collapse.lean; bounded cross-check only")
+    run.trust("lean/Collapse.lean: collapse_idem, collapse_noAdj, collapse_filter, collapse_del_sublist, fold_append (axioms: propext, Quot.sound)")
+    # bounded cross-check of E-RE-SUB + the three clauses on the real functions
+    try:
+        env = dict(os.environ, PYTHONPATH=report.REPO + os.pathsep + os.environ.get("PYTHONPATH", ""))
+        q = subprocess.run(["/venv/bin/python", os.path.join(report.VERIF, "checks", "c20_standin.py"), "--seed", str(run.seed), "--tier", tier],
+                           capture_output=True, text=True, timeout=1200, env=env)
+        out = json.loads(q.stdout.strip().splitlines()[-1])
+        run.extra["bounded_re_sub_crosscheck"] = {"label": "bounded (never counted as proved)", "evaluations": out.get("evaluations"),
+                                                  "bound": out.get("bound"), "violations": len(out.get("violations", []))}
+        for v in out.get("violations", [])[:3]:
+            run.violation(f"standin:{v.get('cleaner')}/{v.get('clause')}", {"input": v.get("input"), "detail": v, "source": "bounded stand-in"}, True)
+    except Exception as ex:
+        run.notes.append(f"c20 stand-in failed to run: {ex!r}")
+    return obls
+
+
 PROPS = {
     "C06": {
         "contracts": ["a_common", "resolve"],
@@ -118,6 +170,26 @@ PROPS = {
                         "E-CUM: cumulative-length function over token arrays with its frame and monotonicity consequences",
                         "E-SORTED: sorted() is a stable permutation with non-decreasing keys"],
         "not_covered": ["AhocorasickTokenizer.get_extractors / HyperscanTokenizer.extract_tokens bodies (C13 / C14)"],
+    },
+    "C16": {
+        "contracts": ["a_common", "resolve"],
+        "functions": ["models.ResourceCitation.corrected_reporter"],
+        "extra": [_c16_extra],
+        "assumptions": [A_HASH, "E-HASH: json.dumps(sort_keys=True, default=str) is injective on the hashed dictionaries",
+                        "case citations carry 'page' and 'reporter' groups (reporters-db guarantee quoted in CaseCitation.__hash__'s docstring)",
+                        "the hash of law/journal citations includes the sorted candidate editions; their equality is an uninterpreted component"],
+        "not_covered": ["'every spelling variation that the database maps unambiguously to an edition equals the canonical spelling' is extraction over the database "
+                        "(bounded stand-in: exhaustive over reporters-db)",
+                        "the re-parse / fixed-point clause of corrected_citation() (round trip through the extractor)"],
+    },
+    "C20": {
+        "contracts": ["clean"],
+        "functions": ["clean.clean_text"],
+        "extra": [_c20_extra],
+        "assumptions": ["a step's effect is an uninterpreted function apply_step(step, text); names are looked up in the dict display of cleaners_lookup read from the AST",
+                        "composition clean_text(t, a+b) == clean_text(clean_text(t, a), b) follows from `sequential` by the fold-append lemma proved in lean/Collapse.lean (fold_append)",
+                        "cleaner laws: Lean proves them for `collapse`; that re.sub IS collapse on the classified patterns is assumed (E-RE-SUB) and cross-checked on a bounded domain"],
+        "not_covered": ["the html cleaner (two lxml calls; the visible-text oracle is a statement about lxml's parser) -- bounded stand-in only"],
     },
     "C18": {
         "contracts": OFFSET_CONTRACTS,
